@@ -114,7 +114,7 @@ Combine(form, old, new) ==
     [] form = "mul" -> old * new
     [] form = "cat" -> old \o new
 
-SetterKey(fn) == CASE fn = "SetX" -> "F.X" [] fn = "SetY" -> "F.Y"
+SetterKey(fn) == CASE fn = "SetX" -> "F.X" [] fn = "SetY" -> "F.Y" [] fn = "Mark" -> "F.Once"
 
 \* One action on the state s = [f, ret, comp, err] threaded through an action list
 Step(a, s) ==
@@ -126,7 +126,9 @@ Step(a, s) ==
             ELSE [s EXCEPT !.f[k.v] = Combine(a.form, s.f[k.v], v.v)]
     [] a.k = "setter" ->
          LET v == Eval(a.e, s.f) IN
-         IF ~v.ok THEN [s EXCEPT !.err = TRUE] ELSE [s EXCEPT !.f[SetterKey(a.fn)] = v.v]
+         IF ~v.ok THEN [s EXCEPT !.err = TRUE]
+         ELSE IF a.fn = "Mark" THEN [s EXCEPT !.f["F.Once"] = s.f["F.Once"] * 10 + v.v]   \* records order and number of runs
+         ELSE [s EXCEPT !.f[SetterKey(a.fn)] = v.v]
     [] a.k = "retract"  -> [s EXCEPT !.ret = s.ret \cup {a.name}]
     [] a.k = "complete" -> [s EXCEPT !.comp = TRUE]
     [] a.k = "forget"   -> s          \* layer A remembers nothing, so there is nothing to forget
